@@ -45,10 +45,10 @@ def leaf(rng, bias):
 
 def gen_tree(rng, depth, bias, odd=False, sparse=0.15, offs=0.15):
     """bias = probability of a literal-true leaf; odd = allow attribute names outside names_ok / colliding"""
-    if depth <= 0 or rng.random() < 0.25:
+    if depth <= 0 or rng.random() < 0.15:
         return leaf(rng, bias)
     k = rng.random()
-    n = rng.choice([0, 1, 1, 2, 2, 3, 4])
+    n = rng.choice([0, 1, 2, 2, 3, 3, 4])
     if k < 0.4:
         pool = PLAIN_NAMES + (ODD_NAMES if odd else [])
         names = rng.sample(pool, min(n, len(pool)))
@@ -190,7 +190,7 @@ def dup_case(rng):
 
 
 def gen_expr_cases(rng, tier):
-    n = 450 if tier == "quick" else 5000
+    n = 450 if tier == "quick" else 3000
     cases = []
     for t, alt, tag, wit in CORPUS_EXPR:
         cases.append({"kind": "expr", "tree": t, "alt": alt, "tag": tag, "witness_of": wit})
@@ -322,7 +322,7 @@ def fnode(name, tree):
 
 
 def gen_run_cases(rng, tier):
-    n = 160 if tier == "quick" else 1500
+    n = 160 if tier == "quick" else 800
     cases = []
     # corpus
     ok = ("tuple", [("test1", T()), ("b", ("array", 0, [T(), T()], "lit"))])
@@ -374,7 +374,7 @@ def coq_results(rs):
 def obs_expr(o):
     if o is None or o.get("st") == "timeout":
         return "EBad"
-    if o["st"] == "panic":
+    if o["st"] in ("panic", "crash"):
         return "EPanic"
     if o["st"] == "err":
         return "EErr"
@@ -384,7 +384,7 @@ def obs_expr(o):
 def obs_run(o):
     if o is None or o.get("st") in ("timeout", "harness-error"):
         return "RBad"
-    if o["st"] == "panic":
+    if o["st"] in ("panic", "crash"):
         return "RPanic"
     rep = o.get("report") or {}
     if rep.get("unparsed", 0):
@@ -393,8 +393,6 @@ def obs_run(o):
     if o["st"] == "err" and not files and summ is None:
         return "RErr"
     if summ is None or any(v < 0 for v in summ.values()):
-        return "RBad"
-    if o["st"] == "err" and not o.get("run_failed_msg"):
         return "RBad"
     fs = "[" + "; ".join("(%s, %s)" % (bl("/" + f["path"]), coq_results(f["results"])) for f in files) + "]"
     s = "{| su_failed := %d; su_invalid := %d; su_ignored := %d; su_passed := %d; su_total := %d |}" % (
@@ -408,12 +406,20 @@ def quirks_term(run):
         cbool("sparse-array-nil" in sigs), cbool("offset-paths" in sigs), cbool("hidden-root" in sigs))
 
 
-def run_cases(run, vh, cases, shard=120):
+def run_cases(run, vh, cases, shard=300):
     ex = [c for c in cases if c["kind"] == "expr"]
     rn = [c for c in cases if c["kind"] == "run"]
-    outs, rc, err = run_harness(vh, "c20expr", [{"id": c["id"], "src": c["src"]} for c in ex])
-    outs2, rc2, err2 = run_harness(vh, "c20run", [{"id": c["id"], "files": c["files"], "dirs": c["dirs"], "target": c["target"]} for c in rn])
-    outs.update(outs2)
+    jobs = []
+    ein = [{"id": c["id"], "src": c["src"]} for c in ex]
+    rin = [{"id": c["id"], "files": c["files"], "dirs": c["dirs"], "target": c["target"]} for c in rn]
+    for i in range(0, len(ein), 250):
+        jobs.append(("c20expr", ein[i:i + 250]))
+    for i in range(0, len(rin), 80):
+        jobs.append(("c20run", rin[i:i + 80]))
+    outs = {}
+    with concurrent.futures.ThreadPoolExecutor(max_workers=8) as pool:
+        for o, rc, err in pool.map(lambda j: run_harness(vh, j[0], j[1]), jobs):
+            outs.update(o)
     qc = quirks_term(run)
     chunks = [("e", ex[i:i + shard]) for i in range(0, len(ex), shard)] + [("r", rn[i:i + shard // 3]) for i in range(0, len(rn), shard // 3)]
 
@@ -479,7 +485,7 @@ def main(tier, seed, replay=None):
         cases = []
         for s in seeds:
             r = rng if s == seed else random.Random(s)
-            cases += gen_expr_cases(r, tier) + gen_run_cases(r, tier if s == seed else "quick")
+            cases += gen_expr_cases(r, tier if s == seed else "quick") + gen_run_cases(r, tier if s == seed else "quick")
     for i, c in enumerate(cases):
         c["id"] = i
         if c["kind"] == "expr":
